@@ -122,3 +122,84 @@ func H_C01_Conditionals() {
 		zzverif.Reach("failed")
 	}
 }
+
+// C01: resource limits of the interpreter at their boundaries (a bounded case split, everything concrete per case):
+// N non-push opcodes for N in 198..204 (limit 201, legacy and segwit v0; OP_RESERVED-class opcodes <= OP_16 are not
+// counted), OP_CHECKMULTISIG adding its key count to the opcode count, N stack elements for N in 998..1003 (limit
+// 1000, main + alt stack), pushes of 519..522 bytes executed and unexecuted (limit 520), scripts of 9999..10002
+// bytes (limit 10000).
+func H_C01_Limits() {
+	var scr []byte
+	want := false
+	var st scrStack
+	switch zzverif.Enum("limit", 6) {
+	case 0: // opcode count
+		n := zzverif.Len("nops", 198, 204)
+		scr = append([]byte{0x51}, make([]byte, n)...)
+		for i := 1; i <= n; i++ {
+			scr[i] = 0x61
+		}
+		want = n <= 201
+	case 1: // opcode count with CHECKMULTISIG: k keys count as k opcodes
+		n := zzverif.Len("nops", 195, 201)
+		k := zzverif.Len("keys", 0, 3)
+		scr = []byte{0x51}
+		for i := 0; i < n; i++ {
+			scr = append(scr, 0x61)
+		}
+		// OP_0 (dummy) OP_0 (no signatures) <k one-byte keys> OP_k OP_CHECKMULTISIG -> true
+		scr = append(scr, 0x75, 0x00, 0x00)
+		for i := 0; i < k; i++ {
+			scr = append(scr, 0x01, 0x02)
+		}
+		if k == 0 {
+			scr = append(scr, 0x00)
+		} else {
+			scr = append(scr, byte(0x50+k))
+		}
+		scr = append(scr, 0xae)
+		want = n+2+k <= 201 // the NOPs, OP_DROP, OP_CHECKMULTISIG and the keys
+	case 2: // stack size
+		n := zzverif.Len("elements", 998, 1003)
+		alt := zzverif.Len("to-altstack", 0, 2)
+		scr = make([]byte, n)
+		for i := range scr {
+			scr[i] = 0x51
+		}
+		for i := 0; i < alt; i++ {
+			scr = append(scr, 0x6b) // OP_TOALTSTACK: moves, the total stays
+		}
+		want = n <= 1000
+	case 3: // push size, executed
+		n := zzverif.Len("push-bytes", 519, 522)
+		scr = append([]byte{0x4d, byte(n), byte(n >> 8)}, make([]byte, n)...)
+		scr[3] = 1
+		want = n <= 520
+	case 4: // push size, in an unexecuted branch
+		n := zzverif.Len("push-bytes", 519, 522)
+		scr = append([]byte{0x00, 0x63, 0x4d, byte(n), byte(n >> 8)}, make([]byte, n)...)
+		scr = append(scr, 0x68, 0x51)
+		want = n <= 520
+	case 5: // script size
+		n := zzverif.Len("script-bytes", 9999, 10002)
+		scr = []byte{0x51}
+		for len(scr)+523 <= n {
+			scr = append(append(scr, 0x4d, 0x08, 0x02), make([]byte, 520)...)
+			scr = append(scr, 0x75)
+		}
+		for len(scr) < n {
+			scr = append(scr, 0x4f) // OP_1NEGATE: one more (true) element, not counted as an opcode
+		}
+		want = n <= 10000
+	}
+	sv := zzverif.Enum("sigversion", 2)
+	checker := &SigChecker{Tx: new(btc.Tx), Idx: 0}
+	var ed btc.ScriptExecutionData
+	got := evalScript(scr, &st, checker, 0, sv, &ed)
+	zzverif.Assert("C01.limits.verdict", got == want)
+	if got {
+		zzverif.Reach("within")
+	} else {
+		zzverif.Reach("beyond")
+	}
+}
